@@ -157,6 +157,11 @@ pub fn run(modelrun: &str) {
         let case = parts[0];
         let price: u64 = parts[1].parse().unwrap();
         let blind = parts[2].contains('B');
+        // `K`: the caller KEEPS what the library hands out (the Arc returned by add_order, the listing of a snapshot) until
+        // the end of the case, as a long-lived client would; code that assumes it is the only owner of an order's Arc
+        // behaves differently then
+        let keep_handles = parts[2].contains('K');
+        let kept: std::cell::RefCell<Vec<std::sync::Arc<pricelevel::OrderType<()>>>> = std::cell::RefCell::new(Vec::new());
         BLIND.with(|b| b.set(blind));
         let mode = if parts[2].starts_with('C') { "C" } else { "O" };
         let mut lvl = PriceLevel::new(price);
@@ -179,6 +184,12 @@ pub fn run(modelrun: &str) {
                     let o = order_of_str(t[1]).unwrap();
                     let r = guarded(&wh, 5000, || {
                         let ret = lvl.add_order(o);
+                        if keep_handles {
+                            kept.borrow_mut().push(ret.clone());
+                            if kept.borrow().len() % 5 == 0 {
+                                kept.borrow_mut().extend(lvl.snapshot().orders);
+                            }
+                        }
                         if let Some(f) = &fork {
                             f.add_order(o);
                         }
